@@ -498,6 +498,13 @@ def opDiscovery (j : Json) : Except String Json := do
     ("candidates", Json.arr (cands.map (fun c => Json.arr (c.map jNatss).toArray)).toArray),
     ("startDirs", Json.arr ((Ztr.Discovery.testDirs roots pkgs pkgDirs).map (fun r => jNatss r.1.1)).toArray)]
 
+/-- `kept_lines`: what the deferred / keep-alive collectors keep of a child's stdout -/
+def opKeptLines (j : Json) : Except String Json := do
+  let bs ← J.nats! j "stdout"
+  let lines := Ztr.Channel.stdoutLines bs
+  return Json.mkObj [("kept", Json.arr ((Ztr.Channel.keptLines bs).map jNats).toArray),
+    ("dots", Json.arr (lines.map (fun l => Json.bool (Ztr.Channel.isDotsLine l))).toArray)]
+
 def dispatch (j : Json) : Except String Json := do
   let op ← J.str! j "op"
   match op with
@@ -518,6 +525,7 @@ def dispatch (j : Json) : Except String Json := do
   | "normalize" => opNormalize j
   | "layer_kept" => opLayerKept j
   | "channel_parse" => opChannelParse j
+  | "kept_lines" => opKeptLines j
   | "child_report" => opChildReport j
   | _ => throw s!"unknown op {op}"
 
